@@ -22,7 +22,8 @@ META = {
         "OrderedLockError, UserlandError, DurableExecutionsError; builtin/user exceptions optionally carrying foreign attributes such as "
         ".data/.stack_trace/.type with non-string values) raised at top level / inside a child context / inside a "
         "step / inside a parallel branch, suspensions; faults: any error class at any backend call (incl. the call that "
-        "records a large result, incl. responses the SDK cannot parse); events: well-formed, missing keys, wrong types, "
+        "records a large result, incl. responses the SDK cannot parse; plus an enumeration in which the failing call is in flight for 0.2-0.3 s while a "
+        "synchronous record is queued behind it); events: well-formed, missing keys, wrong types, "
         "non-JSON / non-object input payloads. Oracle = independent classifier table: the wrapper returns a dict with "
         "Status SUCCEEDED (+ Result that json.loads and fits the limit in bytes, no Error) | FAILED (+ JSON-serializable Error object "
         "with only the four wire fields, strings / list of strings, or an "
@@ -269,4 +270,29 @@ def classes(run, case):
     return out
 
 
-install(globals(), props=("C18",), cases=cases, nontrivial=nontrivial, classes=classes, extra_monitors=(mon_c18,))
+def _inflight_stage(ctx):
+    """Fault enumeration with calls in flight: a step body that outlives the batching window (its START is sent alone, the
+    call takes 0.2 s) finishes and queues its synchronous SUCCEED behind the call that is about to fail - for every error
+    class, lost request and lost response, at top level, in a child context and in a parallel branch."""
+    from .. import wfcheck as WC
+    from .c03 import _S
+
+    bases = [
+        [_S(1, sleep=0.2)],
+        [{"op": "child", "body": [_S(1, sleep=0.2)]}],
+        [_S(0), _S(1, sleep=0.25), _S(2)],
+        [{"op": "parallel", "branches": [[_S(1, sleep=0.2)], [_S(2, sleep=0.25)]], "cfg": {"completion": {"min": None, "tol": 2, "pct": None}}}],
+    ]
+    total = 0
+    for i, body in enumerate(bases):
+        if ctx.nshards > 1 and i % ctx.nshards != ctx.shard % ctx.nshards:
+            continue
+        for lat in (0.2, 0.3):
+            base = {"prog": {"body": body}, "limits": {"response": 3000}, "c18": {"suspends": None}, "backend": {"response": "delta", "api_latency": lat},
+                    "plan": {"crashes": [], "faults": [], "garbage": []}, "sched": [{"mode": "seq"}], "line": [], "max_raises": 1}
+            total += WC.enumerate_faults(ctx, base, PROPS, nontrivial=nontrivial, classes=lambda r, c: ["fault-with-a-call-in-flight"] + classes(r, c),  # noqa: F821
+                                         extra_monitors=(mon_c18,), fault_classes=tuple(sorted(FAULT_CLASSES)), max_inv=1, limit=60)
+    ctx.extra["fault_points_enumerated"] = total
+
+
+install(globals(), props=("C18",), cases=cases, nontrivial=nontrivial, classes=classes, extra_monitors=(mon_c18,), stages=(_inflight_stage,))
